@@ -94,6 +94,14 @@ def basic_problems(c) -> list[str]:
             for lab in lst:
                 if lab not in labels:
                     out.append(f'block {name!r} {kind} names absent gate {lab!r}')
+    # (6b) the interface lists are separate objects: a change of one must never show up in another
+    held = [('inputs', c.inputs), ('outputs', c.outputs)]
+    for name, b in c.blocks.items():
+        held += [(f'block {name!r} inputs', b.inputs), (f'block {name!r} outputs', b.outputs), (f'block {name!r} gates', b.gates)]
+    for i in range(len(held)):
+        for j in range(i + 1, len(held)):
+            if isinstance(held[i][1], list) and held[i][1] is held[j][1]:
+                out.append(f'{held[i][0]} and {held[j][0]} are one and the same list object')
     return out
 
 
